@@ -29,7 +29,8 @@ Y2 = ("dt", 2024, 11, 3, 4, 0, 0, "zone:America/New_York")
 TD_DAY, TD_HOUR, TD_MIX, TD_ZERO, TD_WEEK = ("td", 86400), ("td", 3600), ("td", 90000), ("td", 0), ("td", 604800)
 STARTS = [D1, N1, U1, B1, Y1]
 ENDS = [D2, N2, U2, B2, Y2]
-DURS = [TD_DAY, TD_HOUR, TD_MIX, TD_ZERO, TD_WEEK]
+TD_US = ("td", 86400.000001)          # one day and one microsecond (no wire form; a timedelta argument all the same)
+DURS = [TD_DAY, TD_HOUR, TD_MIX, TD_ZERO, TD_WEEK, TD_US]
 WRONG = [5, "20240101", ("td", 60)]
 
 
